@@ -2074,3 +2074,492 @@ Proof.
   intros Hwt Hwf Hk Hser. apply (conforms_value t true v b Hwt Hwf Hk Hser).
   apply i32_lt_two64. eapply ser_sized_bound; eassumption.
 Qed.
+
+(* ====================================================================================== *)
+(* 14. The repaired vector writer (F2 fix proposal)                                          *)
+(* ====================================================================================== *)
+
+Lemma ser_value_fixed_udt ws ks' nm' fts ks nm fields :
+  ser_value_fixed ws (TUdt ks' nm' fts) (CUdt ks nm fields) =
+  if negb (bytes_eqb ks ks' && bytes_eqb nm nm') then Err SE_UdtNameMismatch
+  else rbind (ser_udt_go (ser_value_fixed true) fts fields) (finish ws).
+Proof.
+  cbn [ser_value_fixed]. destruct (negb _); [reflexivity|]. f_equal.
+  generalize fields. induction fts as [|[fname ft] r IH]; intros st; [reflexivity|].
+  cbn [ser_udt_go]. rewrite <- IH. reflexivity.
+Qed.
+
+Lemma ser_value_fixed_tuple ws ts l :
+  ser_value_fixed ws (TTuple ts) (CTuple l) =
+  if (List.length ts <? List.length l)%nat then Err SE_TupleWrongCount
+  else rbind (ser_tuple_go (ser_value_fixed true) ts l) (finish ws).
+Proof.
+  cbn [ser_value_fixed]. destruct (_ <? _)%nat; [reflexivity|]. f_equal.
+  revert l. induction ts as [|et ts IH]; intros l; [reflexivity|].
+  destruct l as [|ox l]; [reflexivity|]. cbn [ser_tuple_go]. rewrite <- IH. reflexivity.
+Qed.
+
+Lemma ser_value_fixed_native ws n v : ser_value_fixed ws (TNative n) v = ser_value ws (TNative n) v.
+Proof. destruct v; reflexivity. Qed.
+
+Lemma ser_value_fixed_empty ws t :
+  ser_value_fixed ws t CEmpty = if supports_empty t then Ok [] else Err SE_NotEmptyable.
+Proof. destruct t; reflexivity. Qed.
+
+Lemma finish_weaken s b : finish true s = Ok b -> finish false s = Ok b.
+Proof. intros H. apply finish_ok in H as [-> _]. reflexivity. Qed.
+
+Lemma rbind_finish_weaken (r : sres) b : rbind r (finish true) = Ok b -> rbind r (finish false) = Ok b.
+Proof. destruct r as [x|e]; cbn [rbind]; [apply finish_weaken|discriminate]. Qed.
+Lemma rbind_finish_weaken' (r : sres) (g : bytes -> bytes) b :
+  rbind r (fun bs => finish true (g bs)) = Ok b -> rbind r (fun bs => finish false (g bs)) = Ok b.
+Proof. destruct r as [x|e]; cbn [rbind]; [apply finish_weaken|discriminate]. Qed.
+
+Lemma ser_sequence_weaken f l b : ser_sequence true f l = Ok b -> ser_sequence false f l = Ok b.
+Proof. unfold ser_sequence. destruct (i32_max <? _); [intros H; exact H|apply (rbind_finish_weaken' _ (fun bs => _ ++ bs))]. Qed.
+Lemma ser_mapping_weaken fk fv l b : ser_mapping true fk fv l = Ok b -> ser_mapping false fk fv l = Ok b.
+Proof. unfold ser_mapping. destruct (i32_max <? _); [intros H; exact H|apply (rbind_finish_weaken' _ (fun bs => _ ++ bs))]. Qed.
+Lemma ser_vector_weaken fx d f l b : ser_vector true fx d f l = Ok b -> ser_vector false fx d f l = Ok b.
+Proof. unfold ser_vector. destruct (negb _); [intros H; exact H|apply rbind_finish_weaken]. Qed.
+
+(* a size-less writer makes fewer checks than a sized one *)
+Lemma ser_value_ws_weaken t v b : ser_value true t v = Ok b -> ser_value false t v = Ok b.
+Proof.
+  destruct v; try (destruct t as [n| | | | | |]; cbn [ser_value]; try (intros H; exact H);
+                   try (destruct n; try (intros H; exact H); apply finish_weaken);
+                   first [apply ser_sequence_weaken | apply ser_mapping_weaken | apply ser_vector_weaken]; fail).
+  - destruct t; try (cbn [ser_value]; intros H; exact H). rewrite !ser_value_udt.
+    destruct (negb _); [intros H; exact H|apply rbind_finish_weaken].
+  - destruct t; try (cbn [ser_value]; intros H; exact H). rewrite !ser_value_tuple.
+    destruct (_ <? _)%nat; [intros H; exact H|apply rbind_finish_weaken].
+Qed.
+
+Lemma ser_concat_mono {A} (f g : A -> sres) l bs :
+  (forall x p, In x l -> f x = Ok p -> g x = Ok p) -> ser_concat f l = Ok bs -> ser_concat g l = Ok bs.
+Proof.
+  revert bs. induction l as [|x l IH]; intros bs H Hs; [exact Hs|].
+  cbn [ser_concat] in *. apply rbind_ok in Hs as (p & Hp & Hs). apply rbind_ok in Hs as (bs' & Hbs & Hs).
+  rewrite (H x p (or_introl eq_refl) Hp). cbn [rbind].
+  rewrite (IH bs' (fun y q Hy => H y q (or_intror Hy)) Hbs). exact Hs.
+Qed.
+
+Lemma sub_sized_mono f g x p : (forall q, f x = Ok q -> g x = Ok q) -> sub_sized f x = Ok p -> sub_sized g x = Ok p.
+Proof.
+  intros H Hs. unfold sub_sized in *. apply rbind_ok in Hs as (q & Hq & Hs). rewrite (H q Hq). exact Hs.
+Qed.
+
+Lemma sub_sized_opt_mono f g ox p :
+  (forall x q, ox = Some x -> f x = Ok q -> g x = Ok q) -> sub_sized_opt f ox = Ok p -> sub_sized_opt g ox = Ok p.
+Proof.
+  destruct ox as [x|]; cbn [sub_sized_opt]; [|intros _ H; exact H].
+  intros H. apply sub_sized_mono. intros q. apply H. reflexivity.
+Qed.
+
+Lemma vector_hole_empty t : vector_hole t CEmpty = false.
+Proof. destruct t; reflexivity. Qed.
+
+Definition FX (t : ctype) : Prop := forall ws v b,
+  ser_value_fixed ws t v = Ok b ->
+  ser_value ws t v = Ok b /\ (wf_type t = true -> wf_val t v = true -> vector_hole t v = false).
+
+Lemma fx_seq e ws l b : FX e ->
+  ser_sequence ws (ser_value_fixed true e) l = Ok b ->
+  ser_sequence ws (ser_value true e) l = Ok b /\
+  (wf_type e = true -> forallb (wf_val e) l = true -> existsb (exists_sub kc_vector_hole e) l = false).
+Proof.
+  intros HF H. unfold ser_sequence in *. destruct (_ <? _); [discriminate|].
+  apply rbind_ok in H as (bs & Hbs & Hf). split.
+  - rewrite (ser_concat_mono (sub_sized (ser_value_fixed true e)) (sub_sized (ser_value true e)) l bs); [exact Hf| |exact Hbs].
+    intros x p _. apply sub_sized_mono. intros q Hq. apply (HF true x q Hq).
+  - intros Hwe Hall. apply ser_concat_ok in Hbs as (ps & HF2 & _).
+    destruct (existsb _ l) eqn:E; [|reflexivity]. exfalso.
+    apply existsb_exists in E as (x & Hx & Ex).
+    assert (exists p, sub_sized (ser_value_fixed true e) x = Ok p) as (p & Hp).
+    { clear - HF2 Hx. induction HF2 as [|y q l ps Hy _ IH]; [destruct Hx|].
+      destruct Hx as [->|Hx]; [eauto|auto]. }
+    apply sub_sized_ok in Hp as (q & Hq & _).
+    destruct (HF true x q Hq) as [_ Hh]. unfold vector_hole in Hh.
+    rewrite (Hh Hwe (forallb_In _ _ _ Hall Hx)) in Ex. discriminate.
+Qed.
+
+Lemma Forall2_In_l {A B} (P : A -> B -> Prop) l m x : Forall2 P l m -> In x l -> exists y, In y m /\ P x y.
+Proof.
+  induction 1 as [|a b l m Hab _ IH]; [intros []|]. intros [->|H]; [exists b; split; [left; reflexivity|exact Hab]|].
+  destruct (IH H) as (y & Hy & Py). exists y. split; [right; exact Hy|exact Py].
+Qed.
+
+Lemma fx_tuple_go ts : Forall FX ts -> forall l bs,
+  ser_tuple_go (ser_value_fixed true) ts l = Ok bs ->
+  ser_tuple_go (ser_value true) ts l = Ok bs /\
+  (forallb wf_type ts = true -> wf_tuple_go wf_val ts l = true -> ex_tuple_go (exists_sub kc_vector_hole) ts l = false).
+Proof.
+  induction 1 as [|et ts HE HF IH]; intros l bs H; [destruct l; cbn in *; auto|].
+  destruct l as [|ox l]; [cbn in *; auto|].
+  cbn [ser_tuple_go] in *. apply rbind_ok in H as (p & Hp & H). apply rbind_ok in H as (bs' & Hbs' & H).
+  destruct (IH l bs' Hbs') as [I1 I2]. split.
+  - rewrite (sub_sized_opt_mono (ser_value_fixed true et) (ser_value true et) ox p); [|intros x q _ Hq; apply (HE true x q Hq)|exact Hp].
+    cbn [rbind]. rewrite I1. exact H.
+  - intros Hwt Hwf. cbn [forallb wf_tuple_go ex_tuple_go] in *.
+    apply andb_true_iff in Hwt as [Hwe Hwts]. apply andb_true_iff in Hwf as [Hwx Hwl].
+    rewrite (I2 Hwts Hwl), orb_false_r. destruct ox as [x|]; [|reflexivity].
+    cbn [sub_sized_opt] in Hp. apply sub_sized_ok in Hp as (q & Hq & _).
+    destruct (HE true x q Hq) as [_ Hh]. exact (Hh Hwe Hwx).
+Qed.
+
+Lemma fx_udt_go fields fts : Forall (fun f => FX (snd f)) fts -> forall st bs,
+  ser_udt_go (ser_value_fixed true) fts st = Ok bs ->
+  ser_udt_go (ser_value true) fts st = Ok bs /\
+  (wf_type_fields fts = true -> nodupb (map fst fts) = true ->
+   (forall n, In n (map fst fts) -> lookup_last n st = lookup_first n fields) ->
+   wf_udt_go wf_val fields fts = true -> ex_udt_go (exists_sub kc_vector_hole) fields fts = false).
+Proof.
+  induction 1 as [|[fname ft] fts HE HF IH]; intros st bs H; [cbn in *; auto|].
+  cbn [snd] in HE. cbn [ser_udt_go] in *. apply rbind_ok in H as (p & Hp & H). apply rbind_ok in H as (bs' & Hbs' & H).
+  destruct (IH _ bs' Hbs') as [I1 I2]. split.
+  - rewrite (sub_sized_opt_mono (ser_value_fixed true ft) (ser_value true ft) _ p); [|intros x q _ Hq; apply (HE true x q Hq)|exact Hp].
+    cbn [rbind]. rewrite I1. exact H.
+  - intros Hwt Hnd Hag Hwf. cbn [wf_type_fields map fst nodupb wf_udt_go ex_udt_go] in *.
+    apply andb_true_iff in Hwt as [Hwe Hwts]. apply andb_true_iff in Hnd as [Hn1 Hn2].
+    apply negb_true_iff, existsb_eqb_false in Hn1. apply andb_true_iff in Hwf as [Hwx Hwl].
+    rewrite I2; try assumption.
+    + rewrite orb_false_r.
+      assert (Hval : udt_field_value fname st =
+                     match lookup_first fname fields with Some (Some x) => Some x | _ => None end).
+      { unfold udt_field_value. rewrite (Hag fname) by (left; reflexivity). reflexivity. }
+      rewrite Hval in Hp. destruct (lookup_first fname fields) as [[x|]|]; try reflexivity.
+      cbn [sub_sized_opt] in Hp. apply sub_sized_ok in Hp as (q & Hq & _).
+      destruct (HE true x q Hq) as [_ Hh]. exact (Hh Hwe Hwx).
+    + intros n Hn. rewrite lookup_last_remove_other by (intros ->; tauto). apply Hag. right. exact Hn.
+Qed.
+
+Theorem fixed_refines_all t : FX t.
+Proof.
+  induction t as [n|e IH|e IH|k e IHk IHe|ts IH|ks nm fts IH|e d IH] using ctype_ind'; intros ws v b H;
+    (destruct (cval_is_empty_dec v) as [->|Hne];
+     [ rewrite ser_value_fixed_empty in H; rewrite ser_value_empty; split; [exact H|intros; apply vector_hole_empty] | ]).
+  - rewrite ser_value_fixed_native in H. split; [exact H|]. intros _ _. unfold vector_hole. cbn [exists_sub].
+    rewrite orb_false_r. destruct v; reflexivity.
+  - destruct v; try (exfalso; apply Hne; reflexivity); cbn [ser_value_fixed] in H; try discriminate H; cbn [ser_value];
+      destruct (fx_seq e ws _ b IH H) as [A B]; (split; [exact A|]); intros Hwt Hwf;
+      unfold vector_hole; cbn [exists_sub kc_vector_hole vec_elems orb]; cbn [wf_type] in Hwt; cbn [wf_val] in Hwf;
+      apply B; assumption.
+  - destruct v; try (exfalso; apply Hne; reflexivity); cbn [ser_value_fixed] in H; try discriminate H; cbn [ser_value];
+      destruct (fx_seq e ws _ b IH H) as [A B]; (split; [exact A|]); intros Hwt Hwf;
+      unfold vector_hole; cbn [exists_sub kc_vector_hole vec_elems orb]; cbn [wf_type] in Hwt; cbn [wf_val] in Hwf;
+      apply B; assumption.
+  - destruct v; try (exfalso; apply Hne; reflexivity); cbn [ser_value_fixed] in H; try discriminate H. cbn [ser_value].
+    unfold ser_mapping in *. destruct (_ <? _); [discriminate|].
+    apply rbind_ok in H as (bs & Hbs & Hf). split.
+    + assert (Hb' : ser_concat (fun kv => rbind (sub_sized (ser_value true k) (fst kv)) (fun a =>
+                                          rbind (sub_sized (ser_value true e) (snd kv)) (fun b => Ok (a ++ b)))) l = Ok bs).
+      { eapply ser_concat_mono; [|exact Hbs].
+        intros kv p _ Hp. cbn beta in *. apply rbind_ok in Hp as (a & Ha & Hp). apply rbind_ok in Hp as (c & Hc & Hp).
+        rewrite (sub_sized_mono (ser_value_fixed true k) (ser_value true k) _ a (fun q Hq => proj1 (IHk true _ q Hq)) Ha). cbn [rbind].
+        rewrite (sub_sized_mono (ser_value_fixed true e) (ser_value true e) _ c (fun q Hq => proj1 (IHe true _ q Hq)) Hc). exact Hp. }
+      rewrite Hb'. exact Hf.
+    + intros Hwt Hwf. cbn [wf_type] in Hwt. apply andb_true_iff in Hwt as [Hwk Hwe]. cbn [wf_val] in Hwf.
+      unfold vector_hole. cbn [exists_sub kc_vector_hole vec_elems orb].
+      apply ser_concat_ok in Hbs as (ps & HF2 & _).
+      destruct (existsb _ l) eqn:E; [|reflexivity]. exfalso.
+      apply existsb_exists in E as (kv & Hx & Ex).
+      destruct (Forall2_In_l _ _ _ _ HF2 Hx) as (p & _ & Hp). cbn beta in Hp.
+      apply rbind_ok in Hp as (a & Ha & Hp). apply rbind_ok in Hp as (c & Hc & _).
+      apply sub_sized_ok in Ha as (qa & Hqa & _). apply sub_sized_ok in Hc as (qc & Hqc & _).
+      pose proof (forallb_In _ _ _ Hwf Hx) as Hw. cbn beta in Hw. apply andb_true_iff in Hw as [Hw1 Hw2].
+      destruct (IHk true _ qa Hqa) as [_ Hk1]. destruct (IHe true _ qc Hqc) as [_ Hk2].
+      unfold vector_hole in Hk1, Hk2. rewrite (Hk1 Hwk Hw1), (Hk2 Hwe Hw2) in Ex. discriminate.
+  - destruct v; try (cbn [ser_value_fixed] in H; discriminate H); try (exfalso; apply Hne; reflexivity).
+    rewrite ser_value_fixed_tuple in H. rewrite ser_value_tuple. destruct (_ <? _)%nat; [discriminate|].
+    apply rbind_ok in H as (bs & Hbs & Hf). destruct (fx_tuple_go ts IH l bs Hbs) as [A B]. split.
+    + rewrite A. exact Hf.
+    + intros Hwt Hwf. cbn [wf_type] in Hwt. apply andb_true_iff in Hwt as [_ Hwts].
+      rewrite wf_val_tuple in Hwf. apply andb_true_iff in Hwf as [_ Hwl].
+      unfold vector_hole. rewrite exists_sub_tuple. cbn [kc_vector_hole vec_elems orb]. apply B; assumption.
+  - destruct v; try (cbn [ser_value_fixed] in H; discriminate H); try (exfalso; apply Hne; reflexivity).
+    rewrite ser_value_fixed_udt in H. rewrite ser_value_udt. destruct (negb _); [discriminate|].
+    apply rbind_ok in H as (bs & Hbs & Hf). destruct (fx_udt_go fields fts IH fields bs Hbs) as [A B]. split.
+    + rewrite A. exact Hf.
+    + intros Hwt Hwf. rewrite wf_type_udt in Hwt. apply andb_true_iff in Hwt as [Hwt Hwts]. apply andb_true_iff in Hwt as [_ Hnd].
+      rewrite wf_val_udt in Hwf. apply andb_true_iff in Hwf as [Hwf Hwl].
+      apply andb_true_iff in Hwf as [Hwf _]. apply andb_true_iff in Hwf as [_ Hndv].
+      unfold vector_hole. rewrite exists_sub_udt. cbn [kc_vector_hole vec_elems orb]. apply B; try assumption.
+      intros n _. apply lookup_last_first_nodup. exact Hndv.
+  - assert (HV : forall l, ser_vector_fixed ws (type_size e) d (ser_value_fixed true e) l = Ok b ->
+              ser_vector ws (match type_size e with Some _ => true | None => false end) d (ser_value false e) l = Ok b /\
+              (wf_type (TVector e d) = true -> forallb (wf_val e) l = true ->
+               existsb (exists_sub kc_vector_hole e) l = false /\
+               (match type_size e with Some _ => existsb is_cempty l | None => false end) = false)).
+    { intros l Hv. unfold ser_vector_fixed, ser_vector in *. destruct (negb _); [discriminate|].
+      apply rbind_ok in Hv as (bs & Hbs & Hf). split.
+      - assert (Hb' : ser_concat (if match type_size e with Some _ => true | None => false end
+                                  then ser_value false e else vec_var_elem (ser_value false e)) l = Ok bs).
+        { eapply ser_concat_mono; [|exact Hbs].
+          intros x p _ Hp. destruct (type_size e) as [s|].
+          + unfold vec_fixed_elem in Hp. apply rbind_ok in Hp as (q & Hq & Hp).
+            destruct (blen q =? s); [|discriminate]. inv Hp.
+            apply ser_value_ws_weaken. apply (IH true x _ Hq).
+          + unfold vec_var_elem in *. apply rbind_ok in Hp as (q & Hq & Hp).
+            rewrite (ser_value_ws_weaken e x q (proj1 (IH true x q Hq))). exact Hp. }
+        rewrite Hb'. exact Hf.
+      - intros Hwt Hall. cbn [wf_type] in Hwt. apply andb_true_iff in Hwt as [_ Hwe].
+        apply ser_concat_ok in Hbs as (ps & HF2 & _). split.
+        + destruct (existsb _ l) eqn:E; [|reflexivity]. exfalso.
+          apply existsb_exists in E as (x & Hx & Ex).
+          destruct (Forall2_In_l _ _ _ _ HF2 Hx) as (p & _ & Hp).
+          assert (exists q, ser_value_fixed true e x = Ok q) as (q & Hq).
+          { destruct (type_size e); [unfold vec_fixed_elem in Hp|unfold vec_var_elem in Hp];
+              apply rbind_ok in Hp as (q & Hq & _); eauto. }
+          destruct (IH true x q Hq) as [_ Hh]. unfold vector_hole in Hh.
+          rewrite (Hh Hwe (forallb_In _ _ _ Hall Hx)) in Ex. discriminate.
+        + destruct (type_size e) as [s|] eqn:Es; [|reflexivity].
+          destruct (existsb is_cempty l) eqn:E; [|reflexivity]. exfalso.
+          apply existsb_exists in E as (x & Hx & Ex). destruct x; try discriminate Ex.
+          destruct (Forall2_In_l _ _ _ _ HF2 Hx) as (p & _ & Hp).
+          unfold vec_fixed_elem in Hp. rewrite ser_value_fixed_empty in Hp.
+          pose proof (type_size_pos e s Hwe Es) as Hs.
+          destruct (supports_empty e); cbn [rbind] in Hp; [|discriminate].
+          destruct (blen [] =? s) eqn:E0; [|discriminate]. apply N.eqb_eq in E0. cbn in E0. lia. }
+    destruct v; try (exfalso; apply Hne; reflexivity); cbn [ser_value_fixed] in H; try discriminate H; cbn [ser_value];
+      destruct (HV _ H) as [A B]; (split; [exact A|]); intros Hwt Hwf; cbn [wf_val] in Hwf;
+      apply andb_true_iff in Hwf as [_ Hall]; destruct (B Hwt Hall) as [B1 B2];
+      unfold vector_hole; cbn [exists_sub kc_vector_hole vec_elems]; rewrite B1, orb_false_r; exact B2.
+Qed.
+
+Theorem fixed_refines t ws v b : ser_value_fixed ws t v = Ok b -> ser_value ws t v = Ok b.
+Proof. intros H. exact (proj1 (fixed_refines_all t ws v b H)). Qed.
+
+Theorem fixed_no_hole t ws v b :
+  wf_type t = true -> wf_val t v = true -> ser_value_fixed ws t v = Ok b -> vector_hole t v = false.
+Proof. intros Hwt Hwf H. exact (proj2 (fixed_refines_all t ws v b H) Hwt Hwf). Qed.
+
+Lemma ser_cell_fixed_refines t c b : ser_cell_fixed t c = Ok b -> ser_cell t c = Ok b.
+Proof.
+  unfold ser_cell_fixed, ser_cell, ser_cell_ws. destruct c as [| |v]; try (intros H; exact H).
+  intros H. apply rbind_ok in H as (bv & Hbv & H). rewrite (fixed_refines _ _ _ _ Hbv). exact H.
+Qed.
+
+(* with the repaired writer the round trip needs no vector class (the empty tuple, F14, is a
+   different finding and stays) and conformance needs no class at all *)
+Theorem roundtrip_cell_fixed t c b r :
+  wf_cell t c = true ->
+  match c with CVal v => empty_tuple_inside t v = false | _ => True end ->
+  ser_cell_fixed t c = Ok b -> deser_cell t (b ++ r) = Ok (pad_cell t c, r).
+Proof.
+  intros Hwf Hk Hser. apply roundtrip_cell; [exact Hwf| |apply ser_cell_fixed_refines; exact Hser].
+  destruct c as [| |v]; try reflexivity. cbn [known_class_cell]. apply known_class_split. split; [|exact Hk].
+  unfold ser_cell_fixed in Hser. apply rbind_ok in Hser as (bv & Hbv & _).
+  cbn [wf_cell] in Hwf. unfold wf in Hwf. apply andb_true_iff in Hwf as [Hwt Hwv].
+  exact (fixed_no_hole t true v bv Hwt Hwv Hbv).
+Qed.
+
+Theorem conforms_cell_fixed t c b : wf_cell t c = true -> ser_cell_fixed t c = Ok b -> EncCell t c b.
+Proof.
+  intros Hwf Hser. apply conforms_cell; [exact Hwf| |apply ser_cell_fixed_refines; exact Hser].
+  destruct c as [| |v]; try exact I.
+  unfold ser_cell_fixed in Hser. apply rbind_ok in Hser as (bv & Hbv & _).
+  cbn [wf_cell] in Hwf. unfold wf in Hwf. apply andb_true_iff in Hwf as [Hwt Hwv].
+  exact (fixed_no_hole t true v bv Hwt Hwv Hbv).
+Qed.
+
+(* the repaired writer refuses nothing that is a value of the type without a vector hole *)
+Lemma finish_strengthen s b : finish false s = Ok b -> blen b <= i32_max -> finish true s = Ok b.
+Proof.
+  intros H Hb. apply finish_ok in H as [-> _]. unfold finish. cbn [andb].
+  destruct (i32_max <? blen s) eqn:E; [apply N.ltb_lt in E; lia|reflexivity].
+Qed.
+
+Lemma finish_any ws s b : finish false s = Ok b -> blen b <= i32_max -> finish ws s = Ok b.
+Proof. destruct ws; [apply finish_strengthen|intros H _; exact H]. Qed.
+
+Lemma finish_to_false ws s b : finish ws s = Ok b -> finish false s = Ok b.
+Proof. intros H. apply finish_ok in H as [-> _]. reflexivity. Qed.
+
+Lemma ser_concat_of_Forall2 {A} (g : A -> sres) l ps :
+  Forall2 (fun x p => g x = Ok p) l ps -> ser_concat g l = Ok (concat ps).
+Proof.
+  induction 1 as [|x p l ps Hp _ IH]; [reflexivity|]. cbn [ser_concat concat]. rewrite Hp, IH. reflexivity.
+Qed.
+
+Definition FC (t : ctype) : Prop := forall ws v b,
+  wf_type t = true -> wf_val t v = true -> vector_hole t v = false ->
+  ser_value ws t v = Ok b -> blen b <= i32_max -> ser_value_fixed ws t v = Ok b.
+
+Lemma fc_sized t x q : FC t -> wf_type t = true -> wf_val t x = true -> vector_hole t x = false ->
+  sub_sized (ser_value true t) x = Ok q -> sub_sized (ser_value_fixed true t) x = Ok q.
+Proof.
+  intros HC Hwt Hwx Hk H. unfold sub_sized in *. apply rbind_ok in H as (bx & Hbx & H).
+  rewrite (HC true x bx Hwt Hwx Hk Hbx (ser_sized_bound _ _ _ Hwx Hbx)). exact H.
+Qed.
+
+Lemma fc_opt t ox q : FC t -> wf_type t = true ->
+  match ox with Some x => wf_val t x = true | None => True end ->
+  match ox with Some x => vector_hole t x = false | None => True end ->
+  sub_sized_opt (ser_value true t) ox = Ok q -> sub_sized_opt (ser_value_fixed true t) ox = Ok q.
+Proof. destruct ox as [x|]; cbn [sub_sized_opt]; [apply fc_sized|intros _ _ _ _ H; exact H]. Qed.
+
+Lemma fc_seq e ws l b : FC e -> wf_type e = true -> forallb (wf_val e) l = true ->
+  existsb (exists_sub kc_vector_hole e) l = false ->
+  ser_sequence ws (ser_value true e) l = Ok b -> ser_sequence ws (ser_value_fixed true e) l = Ok b.
+Proof.
+  intros HC Hwe Hall Kc H. unfold ser_sequence in *. destruct (_ <? _); [discriminate|].
+  apply rbind_ok in H as (bs & Hbs & Hf).
+  assert (Hb' : ser_concat (sub_sized (ser_value_fixed true e)) l = Ok bs).
+  { eapply ser_concat_mono; [|exact Hbs]. intros x p Hx Hp.
+    apply (fc_sized e x p HC Hwe (forallb_In _ _ _ Hall Hx) (existsb_false _ _ Kc _ Hx) Hp). }
+  rewrite Hb'. exact Hf.
+Qed.
+
+Lemma fc_tuple_go ts : Forall FC ts -> forall l bs,
+  forallb wf_type ts = true -> wf_tuple_go wf_val ts l = true ->
+  ex_tuple_go (exists_sub kc_vector_hole) ts l = false ->
+  ser_tuple_go (ser_value true) ts l = Ok bs -> ser_tuple_go (ser_value_fixed true) ts l = Ok bs.
+Proof.
+  induction 1 as [|et ts HE HF IH]; intros l bs Hwt Hwf Hk H; [destruct l; exact H|].
+  destruct l as [|ox l]; [exact H|].
+  cbn [ser_tuple_go forallb wf_tuple_go ex_tuple_go] in *. apply rbind_ok in H as (p & Hp & H). apply rbind_ok in H as (bs' & Hbs' & H).
+  apply andb_true_iff in Hwt as [Hwe Hwts]. apply andb_true_iff in Hwf as [Hwx Hwl]. apply orb_false_iff in Hk as [Kx Kl].
+  rewrite (fc_opt et ox p HE Hwe).
+  - cbn [rbind]. rewrite (IH l bs' Hwts Hwl Kl Hbs'). exact H.
+  - destruct ox; [exact Hwx|exact I].
+  - destruct ox; [exact Kx|exact I].
+  - exact Hp.
+Qed.
+
+Lemma fc_udt_go fields fts : Forall (fun f => FC (snd f)) fts -> forall st bs,
+  wf_type_fields fts = true -> nodupb (map fst fts) = true ->
+  (forall n, In n (map fst fts) -> lookup_last n st = lookup_first n fields) ->
+  wf_udt_go wf_val fields fts = true -> ex_udt_go (exists_sub kc_vector_hole) fields fts = false ->
+  ser_udt_go (ser_value true) fts st = Ok bs -> ser_udt_go (ser_value_fixed true) fts st = Ok bs.
+Proof.
+  induction 1 as [|[fname ft] fts HE HF IH]; intros st bs Hwt Hnd Hag Hwf Hk H; [exact H|].
+  cbn [snd] in HE. cbn [ser_udt_go wf_type_fields map fst nodupb wf_udt_go ex_udt_go] in *.
+  apply rbind_ok in H as (p & Hp & H). apply rbind_ok in H as (bs' & Hbs' & H).
+  apply andb_true_iff in Hwt as [Hwe Hwts]. apply andb_true_iff in Hnd as [Hn1 Hn2].
+  apply negb_true_iff, existsb_eqb_false in Hn1. apply andb_true_iff in Hwf as [Hwx Hwl].
+  apply orb_false_iff in Hk as [Kx Kl].
+  assert (Hval : udt_field_value fname st =
+                 match lookup_first fname fields with Some (Some x) => Some x | _ => None end).
+  { unfold udt_field_value. rewrite (Hag fname) by (left; reflexivity). reflexivity. }
+  rewrite Hval in *.
+  assert (Hrec : ser_udt_go (ser_value_fixed true) fts (remove_name fname st) = Ok bs').
+  { apply IH; try assumption. intros n Hn. rewrite lookup_last_remove_other by (intros ->; tauto). apply Hag. right. exact Hn. }
+  rewrite Hrec.
+  destruct (lookup_first fname fields) as [[x|]|].
+  - rewrite (fc_opt ft (Some x) p HE Hwe Hwx Kx Hp). exact H.
+  - rewrite (fc_opt ft None p HE Hwe I I Hp). exact H.
+  - rewrite (fc_opt ft None p HE Hwe I I Hp). exact H.
+Qed.
+
+Lemma ser_value_fixed_ws_any t v b ws : ser_value_fixed false t v = Ok b -> blen b <= i32_max -> ser_value_fixed ws t v = Ok b.
+Proof.
+  destruct ws; [|intros H _; exact H].
+  destruct v; try (destruct t as [n| | | | | |]; cbn [ser_value_fixed]; try (intros H _; exact H);
+                   try (destruct n; try (intros H _; exact H); apply finish_strengthen); fail).
+  - destruct t; cbn [ser_value_fixed]; try (intros H _; exact H).
+    + unfold ser_sequence. destruct (i32_max <? _); [intros H _; exact H|]. intros H Hb.
+      apply rbind_ok in H as (bs & Hbs & Hf). rewrite Hbs. cbn [rbind]. apply finish_strengthen; assumption.
+    + unfold ser_sequence. destruct (i32_max <? _); [intros H _; exact H|]. intros H Hb.
+      apply rbind_ok in H as (bs & Hbs & Hf). rewrite Hbs. cbn [rbind]. apply finish_strengthen; assumption.
+    + unfold ser_vector_fixed. destruct (negb _); [intros H _; exact H|]. intros H Hb.
+      apply rbind_ok in H as (bs & Hbs & Hf). rewrite Hbs. cbn [rbind]. apply finish_strengthen; assumption.
+  - destruct t; cbn [ser_value_fixed]; try (intros H _; exact H).
+    unfold ser_mapping. destruct (i32_max <? _); [intros H _; exact H|]. intros H Hb.
+    apply rbind_ok in H as (bs & Hbs & Hf). rewrite Hbs. cbn [rbind]. apply finish_strengthen; assumption.
+  - destruct t; cbn [ser_value_fixed]; try (intros H _; exact H).
+    + unfold ser_sequence. destruct (i32_max <? _); [intros H _; exact H|]. intros H Hb.
+      apply rbind_ok in H as (bs & Hbs & Hf). rewrite Hbs. cbn [rbind]. apply finish_strengthen; assumption.
+    + unfold ser_sequence. destruct (i32_max <? _); [intros H _; exact H|]. intros H Hb.
+      apply rbind_ok in H as (bs & Hbs & Hf). rewrite Hbs. cbn [rbind]. apply finish_strengthen; assumption.
+    + unfold ser_vector_fixed. destruct (negb _); [intros H _; exact H|]. intros H Hb.
+      apply rbind_ok in H as (bs & Hbs & Hf). rewrite Hbs. cbn [rbind]. apply finish_strengthen; assumption.
+  - destruct t; try (cbn [ser_value_fixed]; intros H _; exact H). rewrite !ser_value_fixed_udt.
+    destruct (negb _); [intros H _; exact H|]. intros H Hb.
+    apply rbind_ok in H as (bs & Hbs & Hf). rewrite Hbs. cbn [rbind]. apply finish_strengthen; assumption.
+  - destruct t; try (cbn [ser_value_fixed]; intros H _; exact H). rewrite !ser_value_fixed_tuple.
+    destruct (_ <? _)%nat; [intros H _; exact H|]. intros H Hb.
+    apply rbind_ok in H as (bs & Hbs & Hf). rewrite Hbs. cbn [rbind]. apply finish_strengthen; assumption.
+  - destruct t; cbn [ser_value_fixed]; try (intros H _; exact H).
+    + unfold ser_sequence. destruct (i32_max <? _); [intros H _; exact H|]. intros H Hb.
+      apply rbind_ok in H as (bs & Hbs & Hf). rewrite Hbs. cbn [rbind]. apply finish_strengthen; assumption.
+    + unfold ser_sequence. destruct (i32_max <? _); [intros H _; exact H|]. intros H Hb.
+      apply rbind_ok in H as (bs & Hbs & Hf). rewrite Hbs. cbn [rbind]. apply finish_strengthen; assumption.
+    + unfold ser_vector_fixed. destruct (negb _); [intros H _; exact H|]. intros H Hb.
+      apply rbind_ok in H as (bs & Hbs & Hf). rewrite Hbs. cbn [rbind]. apply finish_strengthen; assumption.
+Qed.
+
+Theorem fixed_complete_all t : FC t.
+Proof.
+  induction t as [n|e IH|e IH|k e IHk IHe|ts IH|ks nm fts IH|e d IH] using ctype_ind'; intros ws v b Hwt Hwf Hk H Hb;
+    (destruct (cval_is_empty_dec v) as [->|Hne];
+     [ rewrite ser_value_empty in H; rewrite ser_value_fixed_empty; exact H | ]).
+  - rewrite ser_value_fixed_native. exact H.
+  - destruct (wf_val_seq_inv _ e _ (or_introl eq_refl) Hwf Hne) as (l & Hl & Hall).
+    pose proof (hole_seq _ e _ _ (or_introl eq_refl) Hl Hk) as Kc.
+    apply vec_elems_inv in Hl as [-> | [-> | ->]]; cbn [ser_value ser_value_fixed] in *;
+      apply (fc_seq e ws l b IH Hwt Hall Kc H).
+  - destruct (wf_val_seq_inv _ e _ (or_intror eq_refl) Hwf Hne) as (l & Hl & Hall).
+    pose proof (hole_seq _ e _ _ (or_intror eq_refl) Hl Hk) as Kc.
+    apply vec_elems_inv in Hl as [-> | [-> | ->]]; cbn [ser_value ser_value_fixed] in *;
+      apply (fc_seq e ws l b IH Hwt Hall Kc H).
+  - destruct (wf_val_map_inv _ _ _ Hwf Hne) as (l & -> & Hall). cbn [ser_value ser_value_fixed] in *.
+    cbn [wf_type] in Hwt. apply andb_true_iff in Hwt as [Hwk Hwe].
+    unfold vector_hole in Hk. cbn [exists_sub] in Hk. apply orb_false_iff in Hk as [_ Kc].
+    unfold ser_mapping in *. destruct (_ <? _); [discriminate|].
+    apply rbind_ok in H as (bs & Hbs & Hf).
+    assert (Hb' : ser_concat (fun kv => rbind (sub_sized (ser_value_fixed true k) (fst kv)) (fun a =>
+                                        rbind (sub_sized (ser_value_fixed true e) (snd kv)) (fun b => Ok (a ++ b)))) l = Ok bs).
+    { eapply ser_concat_mono; [|exact Hbs]. intros kv p Hx Hp. cbn beta in *.
+      apply rbind_ok in Hp as (a & Ha & Hp). apply rbind_ok in Hp as (c & Hc & Hp).
+      pose proof (forallb_In _ _ _ Hall Hx) as Hw. cbn beta in Hw. apply andb_true_iff in Hw as [Hw1 Hw2].
+      pose proof (existsb_false _ _ Kc _ Hx) as Kx. cbn beta in Kx. apply orb_false_iff in Kx as [K1 K2].
+      rewrite (fc_sized k _ a IHk Hwk Hw1 K1 Ha). cbn [rbind].
+      rewrite (fc_sized e _ c IHe Hwe Hw2 K2 Hc). exact Hp. }
+    rewrite Hb'. exact Hf.
+  - destruct (wf_val_tuple_inv _ _ Hwf Hne) as (l & ->).
+    rewrite ser_value_tuple in H. rewrite ser_value_fixed_tuple. destruct (_ <? _)%nat; [discriminate|].
+    apply rbind_ok in H as (bs & Hbs & Hf).
+    rewrite wf_val_tuple in Hwf. apply andb_true_iff in Hwf as [_ Hwl].
+    unfold vector_hole in Hk. rewrite exists_sub_tuple in Hk. apply orb_false_iff in Hk as [_ Kl].
+    cbn [wf_type] in Hwt. apply andb_true_iff in Hwt as [_ Hwts].
+    rewrite (fc_tuple_go ts IH l bs Hwts Hwl Kl Hbs). exact Hf.
+  - destruct (wf_val_udt_inv _ _ _ _ Hwf Hne) as (ks' & nm' & fields & ->).
+    rewrite ser_value_udt in H. rewrite ser_value_fixed_udt. destruct (negb _); [discriminate|].
+    apply rbind_ok in H as (bs & Hbs & Hf).
+    rewrite wf_val_udt in Hwf. apply andb_true_iff in Hwf as [Hwf Hwl].
+    apply andb_true_iff in Hwf as [Hwf _]. apply andb_true_iff in Hwf as [_ Hndv].
+    unfold vector_hole in Hk. rewrite exists_sub_udt in Hk. apply orb_false_iff in Hk as [_ Kl].
+    rewrite wf_type_udt in Hwt. apply andb_true_iff in Hwt as [Hwt Hwts]. apply andb_true_iff in Hwt as [_ Hnd].
+    rewrite (fc_udt_go fields fts IH fields bs Hwts Hnd); [exact Hf| |exact Hwl|exact Kl|exact Hbs].
+    intros n _. apply lookup_last_first_nodup. exact Hndv.
+  - destruct (wf_val_vector_inv _ _ _ Hwf Hne) as (l & Hl & Hlen & Hall).
+    destruct (hole_vector _ _ _ _ Hl Hk) as [Kc Kh].
+    assert (HV : ser_vector ws (match type_size e with Some _ => true | None => false end) d (ser_value false e) l = Ok b ->
+                 ser_vector_fixed ws (type_size e) d (ser_value_fixed true e) l = Ok b).
+    { intros Hv. cbn [wf_type] in Hwt. apply andb_true_iff in Hwt as [_ Hwe].
+      unfold ser_vector, ser_vector_fixed in *. destruct (negb _); [discriminate|].
+      apply rbind_ok in Hv as (bs & Hbs & Hf). pose proof (finish_ok _ _ _ Hf) as [-> _].
+      apply ser_concat_ok in Hbs as (ps & HF2 & ->).
+      rewrite (ser_concat_of_Forall2 _ l ps); [exact Hf|].
+      eapply Forall2_impl_In; [exact HF2|]. intros x p Hx Hp' Hp.
+      pose proof (forallb_In _ _ _ Hall Hx) as Hwx. pose proof (existsb_false _ _ Kc _ Hx) as Kx.
+      pose proof (blen_in_concat _ _ Hp') as Hle.
+      destruct (type_size e) as [s|] eqn:Es.
+      - specialize (Kh ltac:(congruence)).
+        assert (Hxe : x <> CEmpty) by (intros ->; apply (existsb_false _ _ Kh) in Hx; discriminate Hx).
+        unfold vec_fixed_elem.
+        rewrite (ser_value_fixed_ws_any e x p true (IH false x p Hwe Hwx Kx Hp ltac:(lia)) ltac:(lia)). cbn [rbind].
+        rewrite (fixed_size_len_h e false x p s Hwe Hwx Kx Hxe Es Hp), N.eqb_refl. reflexivity.
+      - unfold vec_var_elem in *. apply rbind_ok in Hp as (q & Hq & Hp). inv Hp.
+        rewrite blen_app in Hle.
+        rewrite (ser_value_fixed_ws_any e x q true (IH false x q Hwe Hwx Kx Hq ltac:(lia)) ltac:(lia)). reflexivity. }
+    apply vec_elems_inv in Hl as [-> | [-> | ->]]; cbn [ser_value ser_value_fixed] in *; apply HV; exact H.
+Qed.
+
+Theorem fixed_complete_cell t c b :
+  wf_cell t c = true -> match c with CVal v => vector_hole t v = false | _ => True end ->
+  ser_cell t c = Ok b -> ser_cell_fixed t c = Ok b.
+Proof.
+  intros Hwf Hk H. unfold ser_cell, ser_cell_ws, ser_cell_fixed in *. destruct c as [| |v]; try exact H.
+  apply rbind_ok in H as (bv & Hbv & H). cbn [wf_cell] in Hwf. unfold wf in Hwf. apply andb_true_iff in Hwf as [Hwt Hwv].
+  rewrite (fixed_complete_all t true v bv Hwt Hwv Hk Hbv (ser_sized_bound _ _ _ Hwv Hbv)). exact H.
+Qed.
